@@ -4,7 +4,7 @@ M1  first match wins is wired in: one selector `!has_prev_match & is_match` driv
     updated afterwards, clauses are visited in source order
 M2  sibling constructors split alike: signed scrutinees are split at the arms' boundaries exactly like unsigned ones
 M3  range patterns are lowered with both bound comparisons on every path (inclusive on both ends)
-M6  a number pattern covers a constructor range only if the range is exactly that number: equality with both bounds in all three number arms
+M7  rebuilding a missing case: a compound constructor takes exactly its arity from the witness stack and keeps the rest
 M5  sibling consistency of the parser: struct definitions, struct patterns and struct literals all sort their field lists
     (the exhaustiveness check pairs pattern fields with definition fields by position)
 M4  compound patterns: each field pattern is matched against match_expr[w .. w + size of the field], w advances by that size on
@@ -133,6 +133,57 @@ def rule_m1(ctx):
     return res
 
 
+def _piece_signature(ctx, fid):
+    """Multiset of (lower bound, upper bound) shapes of the range constructors a split function pushes: each bound is
+    ('r0'|'r1'|'?', '+1'|'-1'|'')."""
+    body = ctx.body(fid)
+
+    def shape(op, depth=6):
+        if op["k"] not in ("copy", "move"):
+            return ("const", "")
+        adj = ""
+        cur = op
+        for _ in range(depth):
+            roots = body.trace(cur["place"])
+            nxt = None
+            for (r, p) in roots:
+                if r[0] == "rv" and r[1] in ("binop", "checked_binop"):
+                    rv = body.blocks[r[2]]["stmts"][r[3]]["rv"]
+                    o = rv.get("op", "")
+                    if rv["r"]["k"] == "const" and rv["r"].get("val") == 1 and (o.startswith("Add") or o.startswith("Sub")):
+                        adj += "+1" if o.startswith("Add") else "-1"
+                        nxt = rv["l"]
+                elif r[0] == "rv" and r[1] == "cast":
+                    nxt = body.blocks[r[2]]["stmts"][r[3]]["rv"]["op"]
+                else:
+                    idx = [x for x in p if x.startswith("[")]
+                    if idx:
+                        name = idx[-1].strip("[]")
+                        if name.startswith("_") and name[1:].isdigit():
+                            # an index held in a local: resolve it to its constant
+                            cs = [d[3]["rv"]["op"].get("val") for d in body.defs().get(int(name[1:]), [])
+                                  if d[0] == "assign" and d[3]["rv"]["k"] == "use" and d[3]["rv"]["op"]["k"] == "const"]
+                            name = str(cs[0]) if len(cs) == 1 else "?"
+                        return (("r" + name) if name != "?" else "?", adj)
+                    if r[0] == "call" and mir.last_seg(str(r[2])) == "index":
+                        c = body.term(r[1])
+                        if c["args"][1]["k"] == "const":
+                            return ("r%s" % c["args"][1].get("val"), adj)
+            if nxt is None or nxt["k"] not in ("copy", "move"):
+                break
+            cur = nxt
+        return ("?", adj)
+    sig = []
+    for b, blk in enumerate(body.blocks):
+        if blk["cleanup"]:
+            continue
+        for st in blk["stmts"]:
+            if st["k"] == "assign" and st["rv"]["k"] == "aggregate" and (st["rv"].get("adt") or "").endswith("Ctor") and "InclusiveRange" in (st["rv"].get("variant") or ""):
+                ops = st["rv"]["ops"]
+                sig.append((shape(ops[1]), shape(ops[2])))
+    return sorted(sig)
+
+
 def rule_m2(ctx):
     res = RuleResult("M2", "signed scrutinees are split at the arms' boundaries like unsigned ones")
     f = ctx.fn("check::split_ctor")
@@ -193,6 +244,71 @@ def rule_m2(ctx):
                 res.bad(Finding("M2", fid, "%s: split point skipped" % variant,
                                 "a %s pattern does not always contribute its %d split point(s) (sign filter?): ranges with such bounds are not separated" % (variant, want_n),
                                 sb.term(tgt[0])["sp"] if sb.term(tgt[0]) else sb.fn["sp"]))
+    # the pieces themselves: both functions cut [r0, r1) into the same shapes ({r0}, [r0+1, r1-1] or {r0}); pieces that overlap make
+    # the reported missing cases too wide ("each reported missing case denotes only values that no arm matches")
+    su = _piece_signature(ctx, "check::split_unsigned_range")
+    ss = _piece_signature(ctx, "check::split_signed_range")
+    if not su or any(x[0][0] == "?" or x[1][0] == "?" for x in su + ss):
+        raise AnchorMissing("M2: cannot read the shapes of the pieces pushed by the split functions (%s / %s)" % (su, ss))
+    if su == ss:
+        res.ok({"pieces": ["%s%s..=%s%s" % (a[0], a[1], b[0], b[1]) for a, b in su], "verdict": "signed and unsigned ranges are cut into the same pieces"})
+    else:
+        res.bad(Finding("M2", "check::split_signed_range", "signed and unsigned ranges are cut into different pieces",
+                        "unsigned: %s; signed: %s - overlapping signed pieces ({a} and a..=b-1) make `match x { 5 => .. }` on an i8 report the missing case 5i8..=127i8, which contains 5" %
+                        (["%s%s..=%s%s" % (a[0], a[1], b[0], b[1]) for a, b in su], ["%s%s..=%s%s" % (a[0], a[1], b[0], b[1]) for a, b in ss]), ctx.fn("check::split_signed_range")["sp"]))
+    return res
+
+
+def rule_m7(ctx):
+    """Missing cases are rebuilt from the witness stack: a constructor with n fields takes the first n patterns of the stack as
+    its fields and leaves the rest for the columns behind it.  Wrapping the whole stack (or dropping the rest) produces missing
+    cases that denote no value, or cover values that an arm matches."""
+    res = RuleResult("M7", "rebuilding a missing case: a constructor takes exactly its number of fields from the witness stack and keeps the rest")
+    fid = "check::usefulness"
+    if not ctx.has_fn(fid):
+        raise AnchorMissing("M7: check::usefulness not found")
+    body = ctx.body(fid)
+    ap = None
+    for b in range(body.n):
+        info = body.switch_info(b)
+        if info and info[0] and info[2].endswith("Ctor") and {"Tuple", "Struct", "Variant"} <= set(info[1].values()):
+            ap, sw = info[0], b
+    if ap is None:
+        raise AnchorMissing("M7: usefulness does not switch over the constructor")
+    lp = [l for l in body.loops() if sw in l["body"]]
+    hdr = min(lp, key=lambda l: len(l["body"]))["header"] if lp else None
+    for variant in ("Tuple", "Struct", "Variant"):
+        succ = body.pruned_succ({ap: variant})
+        info = body.switch_info(sw)
+        t = body.term(sw)
+        tgt = [x for v, x in t["targets"] if info[1].get(v) == variant] or [t["otherwise"]]
+        region = set(body.reachable(tgt, blocked={hdr} if hdr is not None else (), succ=succ))
+        calls = {b: body.term(b) for b in region if body.term(b) and body.term(b)["k"] == "call" and not body.blocks[b]["cleanup"]}
+        # a fresh one-element stack `vec![pattern]` that replaces the witness
+        wraps = [b for b, c in calls.items() if mir.last_seg(mir.callee(c) or "") in ("box_assume_init_into_vec_unsafe", "into_vec", "from_elem")]
+        splits = [b for b, c in calls.items() if mir.last_seg(mir.callee(c) or "") in ("split_off", "drain", "truncate")]
+        keeps = [b for b, c in calls.items() if mir.last_seg(mir.callee(c) or "") in ("extend", "append", "insert", "chain")]
+        if not wraps:
+            if keeps:
+                res.ok({"constructor": variant, "verdict": "the stack is kept, the constructor is put in front of it"})
+                continue
+            raise AnchorMissing("M7: cannot see how the %s arm rebuilds the witness" % variant)
+        bad = None
+        for wb in wraps:
+            end = [hdr] if hdr is not None else body.returns()
+            # on the way to the fresh stack the fields were split off with the constructor's arity, and afterwards the rest is put back
+            arity_split = [sb for sb in splits if body.dominates(sb, wb) and
+                           any(r[0] == "call" and mir.last_seg(str(r[2])) == "len" for (r, p) in body.deep_sources(body.term(sb)["args"][1], 2))]
+            if not arity_split:
+                bad = (wb, "wraps the whole witness stack")
+            elif body.path(wb, end, blocked=set(keeps), succ=succ):
+                bad = (wb, "drops the rest of the witness stack")
+        if bad:
+            res.bad(Finding("M7", fid, "%s constructor %s" % (variant, bad[1]),
+                            "when a missing case is rebuilt the %s constructor %s: with the constructor in a column that is not the last, the reported case has the wrong number of fields "
+                            "(`(E::B(0u8, false))` for a (E, bool) scrutinee) or loses a column" % (variant, bad[1]), body.term(bad[0])["sp"]))
+        else:
+            res.ok({"constructor": variant, "verdict": "fields split off by the constructor's arity, the rest appended again"})
     return res
 
 
@@ -377,74 +493,5 @@ def rule_m5(ctx):
     return res
 
 
-def rule_m6(ctx):
-    """Exhaustiveness: the constructors of a number type are the pieces the arms' boundaries cut it into.  A number pattern `n`
-    covers a piece only if the piece is exactly {n}; the signed pieces overlap (a..=a and a..=b-1), so `n lies in the piece` is
-    not the same thing.  Sibling agreement of the three number arms of `specialize`."""
-    from . import C09
-    res = RuleResult("M6", "a number pattern covers a constructor range only if the range is exactly that number (all three number arms of specialize)")
-    fid = "check::specialize"
-    if not ctx.has_fn(fid):
-        raise AnchorMissing("M6: check::specialize not found")
-    pairs = {("NumUnsigned", "UnsignedInclusiveRange"): set(), ("NumSigned", "SignedInclusiveRange"): set(), ("NumUnsigned", "SignedInclusiveRange"): set()}
-
-    def classify(origins):
-        out = set()
-        for (f, r, p) in origins:
-            if f != fid:
-                continue
-            if r == ("arg", 1) and len(p) >= 2 and p[-2] in ("as UnsignedInclusiveRange", "as SignedInclusiveRange") and p[-1] in ("1", "2"):
-                out.add(("ctor", p[-2][3:], "min" if p[-1] == "1" else "max"))
-            elif len(p) >= 2 and p[-2] in ("as NumUnsigned", "as NumSigned") and p[-1] == "0":
-                out.add(("pat", p[-2][3:], "n"))
-        return out
-    cast = dict(mir.TRANSPARENT)
-    for body in C09.bodies_with_closures(ctx, fid):
-        cmps = []
-        for b, t in body.calls():
-            if t["func"].get("declared") == "std::cmp::PartialEq::eq" and len(t["args"]) == 2:
-                cmps.append((t["args"][0], t["args"][1]))
-        for blk in body.blocks:
-            for st in blk["stmts"]:
-                if st["k"] == "assign" and st["rv"]["k"] == "binop" and st["rv"]["op"] == "Eq":
-                    cmps.append((st["rv"]["l"], st["rv"]["r"]))
-        for (l, r) in cmps:
-            sides = []
-            for o in (l, r):
-                org = set(ctx.lifted_trace(body, o))
-                # look through `as u64` casts of a bound
-                for (f, rr, pp) in list(org):
-                    if rr[0] == "rv" and rr[1] == "cast":
-                        ob = ctx.body(f)
-                        org |= set(ctx.lifted_trace(ob, ob.blocks[rr[2]]["stmts"][rr[3]]["rv"]["op"]))
-                sides.append(classify(org))
-            for a in sides[0]:
-                for c in sides[1]:
-                    for (x, y) in ((a, c), (c, a)):
-                        if x[0] == "pat" and y[0] == "ctor" and (x[1], y[1]) in pairs:
-                            pairs[(x[1], y[1])].add(("n", y[2]))
-                        if x[0] == "ctor" and y[0] == "ctor" and x[1] == y[1] and x[2] != y[2]:
-                            for k in pairs:
-                                if k[1] == x[1]:
-                                    pairs[k].add(("min", "max"))
-    for (pat, ctor), eqs in sorted(pairs.items()):
-        # n, min, max must be connected by equalities
-        nodes = {"n": "n", "min": "min", "max": "max"}
-
-        def find(x):
-            while nodes[x] != x:
-                x = nodes[x]
-            return x
-        for (a, b) in eqs:
-            nodes[find(a)] = find(b)
-        if len({find(x) for x in ("n", "min", "max")}) == 1:
-            res.ok({"pattern": pat, "constructor": ctor, "verdict": "covered only if n == min == max"})
-        else:
-            res.bad(Finding("M6", fid, "%s pattern vs %s: no equality with both bounds" % (pat, ctor),
-                            "the number of a %s pattern is not compared for equality with both ends of the %s constructor: a number then also covers the overlapping piece above it, "
-                            "and `let -128i8 = x;` or a match with a gap above a literal is accepted as exhaustive" % (pat, ctor), ctx.fn(fid)["sp"]))
-    return res
-
-
 def run(ctx):
-    return ctx.run_rules([rule_m1, rule_m2, rule_m3, rule_m4, rule_m5, rule_m6])
+    return ctx.run_rules([rule_m1, rule_m2, rule_m3, rule_m4, rule_m5, rule_m7])
